@@ -1110,6 +1110,15 @@ MUTANTS = [
     dict(id="C10.h-expected-epoch-taken-from-the-arriving-task", prop="C10", file="crates/storage/src/write_manager/write_behind.rs",
          old="        while let Ok(task) = receiver.recv() {\n            holdback_queues.push(task);", new="        while let Ok(task) = receiver.recv() {\n            current_batch.expected_epoch = task.write_buffer.epoch;\n            holdback_queues.push(task);",
          expect="C10.h/expected_epoch/only-advanced-by-one-after-applying"),
+    dict(id="C09.k-D20-writer-does-not-mark-the-flight", prop="C09", file="crates/storage/src/key_of_set_map/cache.rs",
+         old="        self.repr.single_flight.invalidate(key);\n", new="",
+         expect="C09.k/key-of-set/cold-load-and-concurrent-write-are-ordered"),
+    dict(id="C09.m-D20-wide-column-writer-does-not-mark-the-flight", prop="C09", file="crates/storage/src/wide_column_cache.rs",
+         old="        // see `insert`\n        self.single_flight.invalidate(key);\n", new="",
+         expect="C09.m/wide-column/late-fill-is-ordered-with-writes"),
+    dict(id="C09.m-D20-no-second-look-inside-the-flight", prop="C09", file="crates/storage/src/wide_column_cache.rs",
+         old="                    if self.tiny_lfu.entry(key.clone(), |entry| {\n                        matches!(entry, tiny_lfu::Entry::Occupied(_))\n                    }) {\n                        return;\n                    }\n", new="",
+         expect="C09.m/wide-column/late-fill-is-ordered-with-writes"),
     dict(id="C12.k-varint-reader-u128-stops-on-set-bit", prop="C12", file="crates/serialize/src/postcard.rs",
          old="            result |= u128::from(byte & 0x7F) << shift;\n\n            if byte & 0x80 == 0 {",
          new="            result |= u128::from(byte & 0x7F) << shift;\n\n            if byte & 0x80 != 0 {",
